@@ -219,9 +219,14 @@ func (r *Raft) onTakeSnapshot(t takeSnapshot) {
 		return
 	}
 	r.snapTakenCh = make(chan snapTaken, 1)
-	go func(index uint64, config Config) { // tracked by r.snapTakenCh
+	// hand the request to the state machine from this goroutine: it is then
+	// ordered after every apply sent so far and before any later one, so the
+	// state captured is the one at commitIndex, which is what config describes
+	req := fsmSnapReq{task: newTask(), index: r.snaps.index + t.threshold}
+	r.fsm.ch <- req
+	go func(config Config) { // tracked by r.snapTakenCh
 		verifPoint("snapshot.start")
-		meta, err := doTakeSnapshot(r.fsm, index, config)
+		meta, err := doTakeSnapshot(r.fsm, req, config)
 		if trace {
 			println(r, "doTakeSnapshot err:", err)
 		}
@@ -230,13 +235,11 @@ func (r *Raft) onTakeSnapshot(t takeSnapshot) {
 			meta: meta,
 			err:  err,
 		}
-	}(r.snaps.index+t.threshold, r.configs.Committed)
+	}(r.configs.Committed)
 }
 
-func doTakeSnapshot(fsm *stateMachine, index uint64, config Config) (snapshotMeta, error) {
-	// get fsm state
-	req := fsmSnapReq{task: newTask(), index: index}
-	fsm.ch <- req
+func doTakeSnapshot(fsm *stateMachine, req fsmSnapReq, config Config) (snapshotMeta, error) {
+	// wait for fsm state
 	<-req.Done()
 	if req.Err() != nil {
 		return snapshotMeta{}, req.Err()
